@@ -652,7 +652,7 @@ class DS:
         return res
 
 
-def h_reproject_dataset(dst_crs):
+def h_reproject_dataset(dst_crs, profile=False):
     """xr_reproject of a Dataset: the Dataset and each georegistered variable recover the
     requested destination GeoBox, CRS included -- whichever way the installed xarray's
     Dataset.map treats attributes; variables without a GeoBox pass through"""
@@ -674,7 +674,11 @@ def h_reproject_dataset(dst_crs):
 
         a = xarray.DataArray(np.zeros((ny, nx), dtype="uint8"), coords=xr.xr_coords(src_g), dims=("y", "x"))
         ds = xarray.Dataset({"a": a, "b": a + 1, "c": xarray.DataArray([2, 3, 4])})
+        if profile:
+            ds["p"] = a.astype("float32").mean("y")  # a column profile: lives on the x axis of the source grid only
         out = xr._xr_reproject_ds(ds, dst_g)
+        if profile:
+            prove("every_variable_left_on_a_spatial_axis_is_on_the_destination_grid", dict(out.sizes).get("y") == my and dict(out.sizes).get("x") == mx)
         for nm, o in (("dataset", out), ("var_a", out.a), ("var_b", out.b)):
             gb = o.odc.geobox
             prove(f"{nm}:geobox_is_the_destination", gb is not None and gb.shape == dst_g.shape and gb.crs == dst_g.crs and gb.affine.almost_equals(dst_g.affine, 1e-6 * max(1.0, abs(dst_g.affine.c), abs(dst_g.affine.f))))
@@ -683,7 +687,12 @@ def h_reproject_dataset(dst_crs):
     DS.copies_attrs = bool(Bool("xarray_map_copies_attrs"))  # forks: both xarray behaviours
     mk = lambda: DAN(_Arr((ny, nx)), coords=xr.xr_coords(src_g), dims=("y", "x"))  # noqa: E731
     plain = DAN(_Arr((3,)), coords={}, dims=("dim_0",))
-    ds = DS({"a": mk(), "b": mk(), "c": plain})
+    vars_ = {"a": mk(), "b": mk(), "c": plain}
+    if profile:
+        # a column profile (the mean over rows): one of the two spatial axes, with the source labels
+        full = mk()
+        vars_["p"] = DAN(_Arr((nx,)), coords={"x": full.coords["x"]}, dims=("x",))
+    ds = DS(vars_)
     saved = (xr.rio_reproject, npmodel.NP.__dict__.get("empty"), FakeXarray.DataArray, FakeXarray.Dataset)
     xr.rio_reproject = lambda src_values, dst, s_gbox, d_gbox, **kw: dst
     npmodel.NP.empty = staticmethod(lambda shape, dtype=None: _Arr(shape, dtype))
@@ -705,6 +714,15 @@ def h_reproject_dataset(dst_crs):
         B_ = gb.affine
         prove(f"{nm}:geobox_is_the_destination", And(gb.shape.y == my, gb.shape.x == mx, gb.crs == dst_g.crs, B_.a == A.a, B_.b == A.b, B_.c == A.c, B_.d == A.d, B_.e == A.e, B_.f == A.f))
     prove("plain_variable_passes_through", out.data_vars["c"].values is plain.values)
+    if profile:
+        # a Dataset has one set of labels per dimension: whatever is left on "x" must carry the
+        # destination's labels (xarray would otherwise join the two label sets into a wider grid)
+        ref = out.data_vars["a"].coords["x"]
+        for nm, v in out.data_vars.items():
+            if "x" in v.dims:
+                lab = v.coords["x"]
+                lv, rv = getattr(lab, "values", lab), getattr(ref, "values", ref)
+                prove(f"{nm}:x_labels_are_the_destinations", And(lv.n == rv.n, ex(lv.a) == ex(rv.a), ex(lv.b) == ex(rv.b)))
 
 
 
@@ -738,7 +756,7 @@ OBLIGATIONS = [
        functions=("odc.geo._xr_interop._xr_reproject_da", "odc.geo._xr_interop.xr_coords", "odc.geo._xr_interop._locate_geo_info", "odc.geo._xr_interop._locate_crs_coords"),
        bounds="source and destination GeoBoxes axis-aligned with symbolic coefficients and shapes (>= 2); leading time axis; CRS coordinate named spatial_ref or crs",
        stubs=("rio_reproject (GDAL warp) recorder", "passive xarray container"), setup=setup),
-    Ob("X7_reproject_dataset", h_reproject_dataset, fixed(dict(dst_crs="epsg:32633"), dict(dst_crs="epsg:3857")),
+    Ob("X7_reproject_dataset", h_reproject_dataset, fixed(dict(dst_crs="epsg:32633"), dict(dst_crs="epsg:3857"), dict(dst_crs="epsg:32633", profile=True)),
        descr="_xr_reproject_ds: Dataset and each georegistered variable recover the destination GeoBox (CRS included) under either attribute behaviour of xarray's Dataset.map; plain variables pass through",
        functions=("odc.geo._xr_interop._xr_reproject_ds", "odc.geo._xr_interop._xr_reproject_da", "odc.geo._xr_interop._locate_geo_info"),
        bounds="axis-aligned symbolic source/destination GeoBoxes (shapes >= 2), two georegistered variables and one plain", stubs=("rio_reproject recorder", "passive Dataset whose map() copies source attributes or not (symbolic environment flag)"), setup=setup),
